@@ -2,5 +2,121 @@
 
 package verifharness
 
-// c11DoubleDebitBin returns the creation code of the hand-assembled "double debit" test token (nil = not available).
-func c11DoubleDebitBin() []byte { return nil }
+// Hand-assembled adversarial ERC-20 tokens (no solc in the sandbox).
+//
+//   storage[address]  = balance            storage[2^160] = totalSupply
+//   name() / symbol() / decimals()          what QueryERC20 (RegisterERC20) needs
+//   totalSupply(), balanceOf(a)
+//   mint(to, amt)                           anybody may mint (set-up); reverts on supply overflow
+//   transfer(to, amt)                       debits the caller by amt + extra, credits `to` by amt and the sink (the
+//                                           "thief" address of the repo's malicious tokens) by extra, returns true;
+//                                           reverts when the caller has less than amt + extra
+//       "dd" (double debit):   extra = amt
+//       "fr" (fee on receive): extra = 1
+//   anything else reverts. No events.
+
+import "encoding/binary"
+
+type c11Asm struct {
+	code   []byte
+	labels map[string]int
+	fix    map[int]string
+}
+
+func (a *c11Asm) op(bs ...byte) *c11Asm { a.code = append(a.code, bs...); return a }
+func (a *c11Asm) push4(v uint32) *c11Asm {
+	var b [4]byte
+	binary.BigEndian.PutUint32(b[:], v)
+	return a.op(0x63).op(b[:]...)
+}
+func (a *c11Asm) pushLabel(l string) *c11Asm {
+	a.op(0x61)
+	a.fix[len(a.code)] = l
+	return a.op(0, 0)
+}
+func (a *c11Asm) jumpi(l string) *c11Asm { return a.pushLabel(l).op(0x57) }
+func (a *c11Asm) label(l string) *c11Asm { a.labels[l] = len(a.code); return a.op(0x5b) }
+func (a *c11Asm) done() []byte {
+	for pos, l := range a.fix {
+		t, ok := a.labels[l]
+		if !ok {
+			panic("label " + l)
+		}
+		a.code[pos], a.code[pos+1] = byte(t>>8), byte(t)
+	}
+	return a.code
+}
+
+// returns the 32-byte word on top of the stack
+func (a *c11Asm) retTop() *c11Asm { return a.op(0x60, 0x00, 0x52, 0x60, 0x20, 0x60, 0x00, 0xf3) }
+
+// returns the ABI encoding of a short string
+func (a *c11Asm) retString(s string) *c11Asm {
+	w := make([]byte, 32)
+	copy(w, s)
+	a.op(0x60, 0x20, 0x60, 0x00, 0x52)          // mem[0] = 0x20
+	a.op(0x60, byte(len(s)), 0x60, 0x20, 0x52) // mem[0x20] = len
+	a.op(0x7f).op(w...).op(0x60, 0x40, 0x52)   // mem[0x40] = bytes
+	return a.op(0x60, 0x60, 0x60, 0x00, 0xf3)
+}
+
+// pushes the storage key of totalSupply (2^160)
+func (a *c11Asm) supKey() *c11Asm { return a.op(0x60, 0x01, 0x60, 0xa0, 0x1b) }
+
+func c11AdversarialRuntime(kind string) []byte {
+	a := &c11Asm{labels: map[string]int{}, fix: map[int]string{}}
+	a.op(0x60, 0x00, 0x35, 0x60, 0xe0, 0x1c) // selector
+	for _, e := range []struct {
+		sel uint32
+		l   string
+	}{{0x70a08231, "bal"}, {0xa9059cbb, "xfer"}, {0x40c10f19, "mint"}, {0x18160ddd, "sup"}, {0x06fdde03, "name"}, {0x95d89b41, "sym"}, {0x313ce567, "dec"}} {
+		a.op(0x80).push4(e.sel).op(0x14).jumpi(e.l)
+	}
+	a.label("rev").op(0x60, 0x00, 0x80, 0xfd)
+	a.label("bal").op(0x60, 0x04, 0x35, 0x54).retTop()
+	a.label("sup").supKey().op(0x54).retTop()
+	a.label("dec").op(0x60, 18).retTop()
+	a.label("name").retString(kind + "tok")
+	a.label("sym").retString("ADV")
+	// mint(to, amt)
+	a.label("mint").op(0x60, 0x24, 0x35) // [amt]
+	a.supKey().op(0x54)                  // [amt, sup]
+	a.op(0x81, 0x01)                     // [amt, sup+amt]
+	a.op(0x81, 0x81, 0x10).jumpi("rev")  // new < amt => overflow
+	a.supKey().op(0x55)                  // [amt]
+	a.op(0x60, 0x04, 0x35, 0x80, 0x54)   // [amt, to, bal]
+	a.op(0x82, 0x01, 0x90, 0x55)         // store bal+amt at to; [amt]
+	a.op(0x50, 0x60, 0x01).retTop()
+	// transfer(to, amt)
+	a.label("xfer").op(0x60, 0x24, 0x35) // [amt]
+	a.op(0x33, 0x54)                     // [amt, b]
+	a.op(0x81, 0x81, 0x10).jumpi("rev")  // b < amt
+	a.op(0x81, 0x90, 0x03)               // [amt, b-amt]
+	if kind == "dd" {
+		a.op(0x81) // extra = amt
+	} else {
+		a.op(0x60, 0x01) // extra = 1
+	}
+	a.op(0x80, 0x82, 0x10).jumpi("rev") // b1 < extra
+	a.op(0x80, 0x91, 0x03)              // [amt, e, b1-e]
+	a.op(0x33, 0x55)                    // store at caller; [amt, e]
+	a.op(0x73).op(c11Thief.Bytes()...)  // [amt, e, sink]
+	a.op(0x80, 0x54)                    // [amt, e, sink, bs]
+	a.op(0x82, 0x01, 0x90, 0x55)        // store bs+e at sink; [amt, e]
+	a.op(0x50)                          // [amt]
+	a.op(0x60, 0x04, 0x35, 0x80, 0x54)  // [amt, to, bt]
+	a.op(0x82, 0x01, 0x90, 0x55)        // store bt+amt at to; [amt]
+	a.op(0x50, 0x60, 0x01).retTop()
+	return a.done()
+}
+
+// creation code: copy the runtime code to memory and return it
+func c11AdversarialBin(kind string) []byte {
+	rt := c11AdversarialRuntime(kind)
+	const hdr = 14
+	init := []byte{0x61, byte(len(rt) >> 8), byte(len(rt)), 0x80, 0x61, 0x00, hdr, 0x60, 0x00, 0x39, 0x60, 0x00, 0xf3, 0x00}
+	return append(init, rt...)
+}
+
+// c11DoubleDebitBin returns the creation code of the hand-assembled "double debit" test token.
+func c11DoubleDebitBin() []byte { return c11AdversarialBin("dd") }
